@@ -280,6 +280,16 @@ class Resolver:
         mname, _, cname = cls_fq.partition(".")
         if mname not in self.repo.modules:
             return None
+        active = self.__dict__.setdefault("_attr_active", set())
+        if (cls_fq, attr) in active:
+            return None  # self.a = self.b; self.b = self.a (swap through a temporary): no type information from the cycle
+        active.add((cls_fq, attr))
+        try:
+            return self._attr_type(cls_fq, attr, mname, cname)
+        finally:
+            active.discard((cls_fq, attr))
+
+    def _attr_type(self, cls_fq: str, attr: str, mname: str, cname: str) -> Optional[str]:
         types = set()
         for m in self.repo.methods(cls_fq):
             for st in body_walk(m.node):
